@@ -256,7 +256,8 @@ func (b *simBroker) handleConn(conn net.Conn) {
 		}
 		req, _, err := decodeRequest(bytes.NewReader(append(hdr, body...)))
 		if err != nil {
-			b.c.rec.Ev("sim_error", kv{"what": "request does not decode: " + err.Error()})
+			// the client under test put bytes on the wire that are not a decodable request
+			b.c.rec.Ev("bad_request", kv{"what": err.Error()})
 			return
 		}
 		res, after := b.c.handle(b, req, int(n)+4)
